@@ -53,7 +53,10 @@ def tri_quad_mesh2d(rng):
                 faces.append((a, b, c, d))
             else:
                 faces.append((a, b, c)); faces.append((a, c, d))
-    # shear the interior a little while keeping quads convex
+    # move every vertex by less than a fifth of the cell (quads stay strictly convex but are no longer parallelograms)
+    if rng.random() < 0.7:
+        m = 0.2 * min(sx, sy)
+        verts = [(G.dy(x + rng.uniform(-m, m)), G.dy(y + rng.uniform(-m, m))) for x, y in verts]
     return verts, faces
 
 
